@@ -367,6 +367,8 @@ def c06(ctx):
     files += transfer_family(ctx, design=False, pr=True)   # Transfer.tla environment schedules under partial reliability
     # what a partially reliable stream gives up must not take reliable traffic of the same association with it
     files += directed_traces(ctx, "prdir", 8, {"VF_FULL": "0" if ctx.quick else "1", "VF_ONLY": "relfrag"})
+    # retransmission limits while the peer's window is closed (window probes are transmissions too)
+    files += directed_traces(ctx, "zwdir", 6, {"VF_ONLY": "prtrue"})
     ctx.validate(files)
 
 
